@@ -159,7 +159,7 @@ def run(ctx: Ctx) -> None:
         "  include '<f>'": lambda: SStr(["  include '", word("f"), "'"]),
     }
     for name, mk in shapes.items():
-        outs = I.explore(gif_q, lambda mk=mk: (pai.Inst("parser.Parser") if gif_m else None, [mk()], {}))
+        outs = I.explore(gif_q, lambda mk=mk: (models.construct(e, "parser.Parser") if gif_m else None, [mk()], {}))
         bad = [o for o in outs if o.kind == "raise" and o.exc not in LARK_FAMILY]
         ctx.check(not bad, "X2", f"include line shape: {name}", repo.loc("parser", repo.func(gif_q)), f"{len(outs)} path(s), no foreign exception", f"_get_include_filename raises {[o.exc for o in bad]} for a line of the form '{name}'")
 
